@@ -134,7 +134,9 @@ def family_cases(rng, tier):
                 spec = f'(LDM_user {rd} {m} {inc} {wh} {regs} {n})'
             elif kind == 'ldm_eret':
                 regs &= 0x7FFF
-                fields = [0, inc, wh, wback, regs, n]
+                # the decoder hands execute() the list with bit 15 set (the PC is always loaded); the specification takes the
+                # architectural 15-bit list
+                fields = [0, inc, wh, wback, regs | 0x8000, n]
                 spec = f'(LDM_eret {rd} {jaz} {hs} 0 {m} {inc} {wh} {wback} {regs} {n})'
             elif kind == 'rfe':
                 fields = [0, inc, wh, wback, n]
